@@ -3,4 +3,808 @@ import DC.Properties.C06
 
 namespace DC.Cache
 
+/-- two idle handles on the same directory with the same pending observations -/
+structure Sim (s t : Cache) : Prop where
+  rows : s.rows = t.rows
+  count : s.count = t.count
+  size : s.size = t.size
+  hits : s.hits = t.hits
+  misses : s.misses = t.misses
+  statistics : s.statistics = t.statistics
+  files : s.files = t.files
+  nfile : s.nfile = t.nfile
+  cfg : s.cfg = t.cfg
+  env : s.env = t.env
+  ds : s.depth = 0
+  dt : t.depth = 0
+
+/-- related states and equal auxiliary results -/
+@[reducible] def SimP {α : Type} (p q : Cache × α) : Prop := Sim p.1 q.1 ∧ p.2 = q.2
+
+/-- related transaction bodies -/
+@[reducible] def SimB (a b : Body) : Prop := Sim a.s b.s ∧ a.out = b.out ∧ a.ok = b.ok ∧ a.cleanup = b.cleanup
+
+theorem SimP.ex {α : Type} {p q : Cache × α} (h : SimP p q) :
+    ∃ s' t' a, p = (s', a) ∧ q = (t', a) ∧ Sim s' t' :=
+  ⟨p.1, q.1, p.2, rfl, by rw [h.2], h.1⟩
+
+theorem Sim.rfl' {s : Cache} (hd : s.depth = 0) : Sim s s :=
+  ⟨rfl, rfl, rfl, rfl, rfl, rfl, rfl, rfl, rfl, rfl, hd, hd⟩
+
+theorem Sim.symm {s t : Cache} (h : Sim s t) : Sim t s :=
+  ⟨h.rows.symm, h.count.symm, h.size.symm, h.hits.symm, h.misses.symm, h.statistics.symm,
+   h.files.symm, h.nfile.symm, h.cfg.symm, h.env.symm, h.dt, h.ds⟩
+
+theorem Sim.trans {s t u : Cache} (h : Sim s t) (h2 : Sim t u) : Sim s u :=
+  ⟨h.rows.trans h2.rows, h.count.trans h2.count, h.size.trans h2.size, h.hits.trans h2.hits,
+   h.misses.trans h2.misses, h.statistics.trans h2.statistics, h.files.trans h2.files,
+   h.nfile.trans h2.nfile, h.cfg.trans h2.cfg, h.env.trans h2.env, h.ds, h2.dt⟩
+
+/-- prove `Sim (f s) (f t)` for a function that is a plain record update -/
+macro "sim_fields" h:ident "[" ls:Lean.Parser.Tactic.simpLemma,* "]" : tactic => `(tactic| (
+  obtain ⟨h1, h2, h3, h4, h5, h6, h7, h8, h9, h10, h11, h12⟩ := $h
+  constructor <;> simp only [$ls,*, h1, h2, h3, h4, h5, h6, h7, h8, h9, h10, h11, h12]))
+
+macro "sim_fields0" h:ident : tactic => `(tactic| (
+  obtain ⟨h1, h2, h3, h4, h5, h6, h7, h8, h9, h10, h11, h12⟩ := $h
+  constructor <;> simp only [h1, h2, h3, h4, h5, h6, h7, h8, h9, h10, h11, h12]))
+
+/-! ### statement functions -/
+
+theorem Sim.log {s t : Cache} (h : Sim s t) (a b : Act) : Sim (s.log a) (t.log b) :=
+  ⟨h.rows, h.count, h.size, h.hits, h.misses, h.statistics, h.files, h.nfile, h.cfg, h.env, h.ds, h.dt⟩
+
+theorem Sim.logSql {s t : Cache} (h : Sim s t) (a b : String) : Sim (s.logSql a) (t.logSql b) :=
+  h.log _ _
+
+theorem Sim.fwrite {s t : Cache} (h : Sim s t) (c : Content) : SimP (s.fwrite c) (t.fwrite c) := by
+  refine ⟨?_, h.nfile⟩
+  sim_fields h [Cache.fwrite, Cache.log]
+
+theorem Sim.fremove {s t : Cache} (h : Sim s t) (f : Nat) : Sim (s.fremove f) (t.fremove f) := by
+  sim_fields h [Cache.fremove, Cache.log]
+
+theorem Sim.fremoveAll {s t : Cache} (h : Sim s t) (fs : List (Option Nat)) :
+    Sim (s.fremoveAll fs) (t.fremoveAll fs) := by
+  induction fs generalizing s t with
+  | nil => exact h
+  | cons a fs ih =>
+    cases a with
+    | none => exact ih h
+    | some f => exact ih (h.fremove f)
+
+theorem Sim.insRow {s t : Cache} (h : Sim s t) (k : SqlVal) (raw : Bool) (now : Int) (c : Cols) :
+    Sim (s.insRow k raw now c) (t.insRow k raw now c) := by
+  sim_fields h [Cache.insRow, Cache.logSql, Cache.log]
+
+theorem Sim.updRow {s t : Cache} (h : Sim s t) (rowid : Nat) (now : Int) (c : Cols) :
+    Sim (s.updRow rowid now c) (t.updRow rowid now c) := by
+  sim_fields h [Cache.updRow, Cache.logSql, Cache.log]
+
+theorem Sim.updExp {s t : Cache} (h : Sim s t) (rowid : Nat) (e : Option Int) :
+    Sim (s.updExp rowid e) (t.updExp rowid e) := by
+  sim_fields h [Cache.updExp, Cache.logSql, Cache.log]
+
+theorem Sim.updGet {s t : Cache} (h : Sim s t) (rowid : Nat) (now : Int) :
+    Sim (s.updGet rowid now) (t.updGet rowid now) := by
+  sim_fields h [Cache.updGet, Cache.logSql, Cache.log]
+
+theorem Sim.updIncr {s t : Cache} (h : Sim s t) (rowid : Nat) (now : Int) (v : SqlVal) :
+    Sim (s.updIncr rowid now v) (t.updIncr rowid now v) := by
+  sim_fields h [Cache.updIncr, Cache.logSql, Cache.log]
+
+theorem Sim.delRowQuiet {s t : Cache} (h : Sim s t) (rowid : Nat) :
+    Sim (s.delRowQuiet rowid) (t.delRowQuiet rowid) := by
+  unfold Cache.delRowQuiet
+  rw [← h.rows]
+  split
+  · sim_fields0 h
+  · exact h
+
+theorem Sim.delRow {s t : Cache} (h : Sim s t) (rowid : Nat) : Sim (s.delRow rowid) (t.delRow rowid) :=
+  (h.delRowQuiet rowid).logSql _ _
+
+theorem Sim.delIn {s t : Cache} (h : Sim s t) (ids : List Nat) : Sim (s.delIn ids) (t.delIn ids) := by
+  unfold Cache.delIn
+  induction ids generalizing s t with
+  | nil => exact h
+  | cons a ids ih => exact ih (h.delRowQuiet a)
+
+theorem Sim.incMisses {s t : Cache} (h : Sim s t) :
+    Sim { s with misses := s.misses + 1 } { t with misses := t.misses + 1 } := by
+  sim_fields0 h
+
+theorem Sim.incHits {s t : Cache} (h : Sim s t) :
+    Sim { s with hits := s.hits + 1 } { t with hits := t.hits + 1 } := by
+  sim_fields0 h
+
+theorem Sim.takeSnap {s t : Cache} (h : Sim s t) : s.takeSnap = t.takeSnap := by
+  simp only [Cache.takeSnap, h.rows, h.count, h.size, h.hits, h.misses]
+
+theorem Sim.restore {s t : Cache} (h : Sim s t) (p : Snap) : Sim (s.restore p) (t.restore p) := by
+  sim_fields h [Cache.restore]
+
+/-! ### selections: functions of the rows and settings -/
+
+theorem Sim.selKey {s t : Cache} (h : Sim s t) (k : SqlVal) (raw : Bool) : s.selKey k raw = t.selKey k raw := by
+  unfold Cache.selKey; rw [h.rows]
+
+theorem Sim.selLive {s t : Cache} (h : Sim s t) (k : SqlVal) (raw : Bool) (now : Int) :
+    s.selLive k raw now = t.selLive k raw now := by
+  unfold Cache.selLive; rw [h.rows]
+
+theorem Sim.selExpired {s t : Cache} (h : Sim s t) (now : Int) (n : Nat) :
+    s.selExpired now n = t.selExpired now n := by
+  unfold Cache.selExpired; rw [h.rows]
+
+theorem Sim.selPolicy {s t : Cache} (h : Sim s t) (n : Nat) : s.selPolicy n = t.selPolicy n := by
+  unfold Cache.selPolicy; rw [h.rows, h.cfg]
+
+theorem Sim.queueRows {s t : Cache} (h : Sim s t) (pfx : Option Str) : s.queueRows pfx = t.queueRows pfx := by
+  unfold Cache.queueRows; rw [h.rows]
+
+theorem Sim.fileGet {s t : Cache} (h : Sim s t) (f : Nat) : s.fileGet f = t.fileGet f := by
+  unfold Cache.fileGet; rw [h.files]
+
+/-! ### compound statement functions -/
+
+theorem Sim.volume {s t : Cache} (h : Sim s t) : SimP s.volume t.volume := by
+  unfold Cache.volume
+  have h2 := (h.logSql "pageCount" "pageCount").logSql "getSize" "getSize"
+  revert h2
+  generalize (s.logSql "pageCount").logSql "getSize" = s'
+  generalize (t.logSql "pageCount").logSql "getSize" = t'
+  intro h2
+  simp only [← h2.env]
+  split
+  · refine ⟨?_, by simp only [h2.size]⟩
+    rename_i pb rest he
+    have he' := h2.env
+    rw [he] at he'
+    obtain ⟨h1, h2, h3, h4, h5, h6, h7, h8, h9, h10, h11, h12⟩ := h2
+    constructor <;> simp only [*]
+  · refine ⟨?_, h2.size⟩
+    sim_fields0 h2
+
+theorem Sim.fetchRow {s t : Cache} (h : Sim s t) (E : Externals) (r : Row) (read : Bool) :
+    SimP (s.fetchRow E r read) (t.fetchRow E r read) := by
+  unfold Cache.fetchRow
+  split
+  · rename_i f hf
+    split
+    · exact ⟨h, by simp only [h.cfg, h.fileGet]⟩
+    · exact ⟨h.log _ _, by simp only [h.cfg, Cache.fileGet, Cache.log, h.files]⟩
+  · exact ⟨h, by simp only [h.cfg]⟩
+
+theorem Sim.store {s t : Cache} (h : Sim s t) (E : Externals) (v : PyVal) (read : Bool) :
+    (∃ e, s.store E v read = .error e ∧ t.store E v read = .error e) ∨
+    (∃ s' t' c, s.store E v read = .ok (s', c) ∧ t.store E v read = .ok (t', c) ∧ Sim s' t') := by
+  unfold Cache.store
+  rw [← h.cfg]
+  split
+  · exact .inl ⟨_, rfl, rfl⟩
+  · exact .inr ⟨_, _, _, rfl, rfl, h⟩
+  · rename_i mode c _
+    refine .inr ⟨(s.fwrite c).1, (t.fwrite c).1, _, rfl, ?_, (h.fwrite c).1⟩
+    show Except.ok ((t.fwrite c).1, _) = _
+    rw [h.nfile]
+
+theorem Sim.removeCommitted {s t : Cache} (h : Sim s t) (f : Option Nat) :
+    Sim (s.removeCommitted f) (t.removeCommitted f) := by
+  rw [removeCommitted_zero s f h.ds, removeCommitted_zero t f h.dt]
+  cases f with
+  | none => exact h
+  | some f => exact h.fremove f
+
+theorem Sim.transact {s t : Cache} (h : Sim s t) (b1 b2 : Cache → Body) (fresh : Option Nat)
+    (hb : ∀ u v, Sim u v → SimB (b1 u) (b2 v)) :
+    SimP (s.transact b1 fresh) (t.transact b2 fresh) := by
+  unfold Cache.transact
+  have hs : ¬ (s.depth > 0) := by rw [h.ds]; exact Nat.lt_irrefl 0
+  have ht : ¬ (t.depth > 0) := by rw [h.dt]; exact Nat.lt_irrefl 0
+  rw [if_neg hs, if_neg ht]
+  obtain ⟨h1, h2, h3, h4⟩ := hb _ _ (h.log .begin .begin)
+  simp only [← h3]
+  split
+  · exact ⟨by rw [h4]; exact (h1.log _ _).fremoveAll _, h2⟩
+  · refine ⟨?_, h2⟩
+    have h5 := ((h1.restore s.takeSnap).log .rollback .rollback)
+    rw [← h.takeSnap]
+    cases fresh with
+    | none => exact h5
+    | some f => exact h5.fremove f
+
+theorem Sim.cullTail {s t : Cache} (h : Sim s t) (cl : List (Option Nat)) (n : Nat) :
+    SimP (DC.Cache.cullTail s cl n) (DC.Cache.cullTail t cl n) := by
+  unfold DC.Cache.cullTail
+  split
+  · exact ⟨h, rfl⟩
+  · rw [← h.cfg]
+    split
+    · exact ⟨h, rfl⟩
+    · obtain ⟨s', t', vol, e1, e2, h'⟩ := h.volume.ex
+      rw [e1, e2]
+      simp only
+      rw [← h'.cfg, ← h'.selPolicy]
+      split
+      · exact ⟨h', rfl⟩
+      · split
+        · exact ⟨h'.logSql _ _, rfl⟩
+        · exact ⟨((h'.logSql _ _).delIn _).logSql _ _, rfl⟩
+
+theorem Sim.cullW {s t : Cache} (h : Sim s t) (now : Int) : SimP (s.cullW now) (t.cullW now) := by
+  by_cases hc : s.cfg.cullLimit = 0
+  · have hc' : t.cfg.cullLimit = 0 := by rw [← h.cfg]; exact hc
+    unfold Cache.cullW
+    simp only [Option.getD_none, hc, hc', beq_self_eq_true, if_true]
+    exact ⟨h, rfl⟩
+  · have hc' : t.cfg.cullLimit ≠ 0 := by rw [← h.cfg]; exact hc
+    rw [cullW_eq s now hc, cullW_eq t now hc']
+    rw [← h.cfg, ← h.selExpired]
+    split
+    · exact (h.logSql _ _).cullTail _ _
+    · exact (((h.logSql _ _).delIn _).logSql _ _).cullTail _ _
+
+theorem Sim.cullW₁ {s t : Cache} (h : Sim s t) (now : Int) : Sim (s.cullW now).1 (t.cullW now).1 :=
+  (h.cullW now).1
+theorem Sim.cullW₂ {s t : Cache} (h : Sim s t) (now : Int) : (s.cullW now).2 = (t.cullW now).2 :=
+  (h.cullW now).2
+theorem Sim.fetchRow₁ {s t : Cache} (h : Sim s t) (E : Externals) (r : Row) (read : Bool) :
+    Sim (s.fetchRow E r read).1 (t.fetchRow E r read).1 := (h.fetchRow E r read).1
+theorem Sim.fetchRow₂ {s t : Cache} (h : Sim s t) (E : Externals) (r : Row) (read : Bool) :
+    (s.fetchRow E r read).2 = (t.fetchRow E r read).2 := (h.fetchRow E r read).2
+theorem Sim.volume₁ {s t : Cache} (h : Sim s t) : Sim s.volume.1 t.volume.1 := h.volume.1
+theorem Sim.volume₂ {s t : Cache} (h : Sim s t) : s.volume.2 = t.volume.2 := h.volume.2
+theorem Sim.transact₁ {s t : Cache} (h : Sim s t) (b1 b2 : Cache → Body) (fresh : Option Nat)
+    (hb : ∀ u v, Sim u v → SimB (b1 u) (b2 v)) :
+    Sim (s.transact b1 fresh).1 (t.transact b2 fresh).1 := (h.transact b1 b2 fresh hb).1
+
+@[simp] theorem logSql_statistics (s : Cache) (a : String) : (s.logSql a).statistics = s.statistics := rfl
+@[simp] theorem logSql_selKey (s : Cache) (a : String) : (s.logSql a).selKey = s.selKey := rfl
+@[simp] theorem fetchRow_statistics (s : Cache) (E : Externals) (r : Row) (read : Bool) :
+    (s.fetchRow E r read).1.statistics = s.statistics := by
+  unfold Cache.fetchRow; split
+  · split <;> rfl
+  · rfl
+@[simp] theorem fetchRow_cfg (s : Cache) (E : Externals) (r : Row) (read : Bool) :
+    (s.fetchRow E r read).1.cfg = s.cfg := by
+  unfold Cache.fetchRow; split
+  · split <;> rfl
+  · rfl
+
+theorem Sim.ite_stat {x y a1 a2 b1 b2 : Cache} (h : Sim x y) (h1 : Sim a1 a2) (h2 : Sim b1 b2) :
+    Sim (if x.statistics then a1 else b1) (if y.statistics then a2 else b2) := by
+  rw [← h.statistics]
+  split
+  · exact h1
+  · exact h2
+
+theorem Sim.ite_pol {x y a1 a2 b1 b2 : Cache} (h : Sim x y) (h1 : Sim a1 a2) (h2 : Sim b1 b2) :
+    Sim (if policyUpdates x.cfg.policy then a1 else b1) (if policyUpdates y.cfg.policy then a2 else b2) := by
+  rw [← h.cfg]
+  split
+  · exact h1
+  · exact h2
+
+/-- close goals `Sim (f (g (… u))) (f (g (… v)))` for compositions of statement functions -/
+macro "sim_auto" : tactic => `(tactic| repeat' first
+    | assumption
+    | with_reducible apply Sim.logSql
+    | with_reducible apply Sim.log
+    | with_reducible apply Sim.delIn
+    | with_reducible apply Sim.insRow
+    | with_reducible apply Sim.updRow
+    | with_reducible apply Sim.updExp
+    | with_reducible apply Sim.updGet
+    | with_reducible apply Sim.updIncr
+    | with_reducible apply Sim.delRow
+    | with_reducible apply Sim.delRowQuiet
+    | with_reducible apply Sim.removeCommitted
+    | with_reducible apply Sim.incMisses
+    | with_reducible apply Sim.incHits
+    | with_reducible apply Sim.cullW₁
+    | with_reducible apply Sim.fetchRow₁
+    | with_reducible apply Sim.volume₁
+    | with_reducible apply Sim.ite_stat
+    | with_reducible apply Sim.ite_pol
+    | (with_reducible refine Sim.transact₁ ?_ _ _ _ (fun _ _ _ => ⟨?_, rfl, rfl, rfl⟩)))
+
+/-- equal auxiliary results -/
+macro "sim_eq" : tactic => `(tactic| first
+    | rfl
+    | (with_reducible apply Sim.cullW₂; sim_auto; done)
+    | (with_reducible apply Sim.volume₂; sim_auto; done)
+    | (with_reducible apply Sim.fetchRow₂; sim_auto; done)
+    | (congr 1; with_reducible apply Sim.cullW₂; sim_auto; done))
+
+/-- related bodies -/
+macro "sim_body" : tactic => `(tactic| (refine ⟨?_, ?_, ?_, ?_⟩ <;> (try dsimp only) <;>
+    first | sim_eq | (sim_auto; done)))
+
+/-! ### public methods -/
+
+theorem set_sim {s t : Cache} (h : Sim s t) (E : Externals) (now : Int) (k v : PyVal) (ttl : Option Int)
+    (read : Bool) (tag : SqlVal) : SimP (s.set E now k v ttl read tag) (t.set E now k v ttl read tag) := by
+  unfold Cache.set
+  rw [← h.cfg]
+  rcases DC.put E s.cfg.disk k with ⟨dbk, raw⟩
+  simp only
+  rcases h.store E v read with ⟨e, e1, e2⟩ | ⟨s', t', c, e1, e2, h'⟩
+  · rw [e1, e2]; exact ⟨h, rfl⟩
+  · rw [e1, e2]
+    simp only
+    apply h'.transact
+    intro u v hu
+    split
+    · sim_body
+    · rw [← hu.selKey]
+      split
+      · sim_body
+      · split
+        · sim_body
+        · sim_body
+
+theorem touch_sim {s t : Cache} (h : Sim s t) (E : Externals) (now : Int) (k : PyVal) (ttl : Option Int) :
+    SimP (s.touch E now k ttl) (t.touch E now k ttl) := by
+  unfold Cache.touch
+  rw [← h.cfg]
+  rcases DC.put E s.cfg.disk k with ⟨dbk, raw⟩
+  simp only
+  apply h.transact
+  intro u v hu
+  rw [← hu.selKey]
+  split
+  · split
+    · sim_body
+    · sim_body
+  · sim_body
+
+theorem add_sim {s t : Cache} (h : Sim s t) (E : Externals) (now : Int) (k v : PyVal) (ttl : Option Int)
+    (read : Bool) (tag : SqlVal) : SimP (s.add E now k v ttl read tag) (t.add E now k v ttl read tag) := by
+  unfold Cache.add
+  rw [← h.cfg]
+  rcases DC.put E s.cfg.disk k with ⟨dbk, raw⟩
+  simp only
+  rcases h.store E v read with ⟨e, e1, e2⟩ | ⟨s', t', c, e1, e2, h'⟩
+  · rw [e1, e2]; exact ⟨h, rfl⟩
+  · rw [e1, e2]
+    simp only
+    apply h'.transact
+    intro u v hu
+    split
+    · sim_body
+    · rw [← hu.selKey]
+      split
+      · split
+        · sim_body
+        · split
+          · sim_body
+          · sim_body
+      · split
+        · sim_body
+        · sim_body
+
+theorem incr_sim {s t : Cache} (h : Sim s t) (E : Externals) (now : Int) (k : PyVal) (delta : Int)
+    (dflt : Option Int) : SimP (s.incr E now k delta dflt) (t.incr E now k delta dflt) := by
+  unfold Cache.incr
+  rw [← h.cfg]
+  rcases DC.put E s.cfg.disk k with ⟨dbk, raw⟩
+  simp only
+  apply h.transact
+  intro u v hu
+  rw [← hu.selKey]
+  cases hold : u.selKey dbk raw with
+  | none =>
+    simp only
+    split
+    · sim_body
+    · rename_i d
+      rcases (hu.logSql "selKey" "selKey").store E (.int (d + delta)) false with
+        ⟨e, e1, e2⟩ | ⟨s', t', c, e1, e2, h'⟩
+      · rw [e1, e2]; sim_body
+      · rw [e1, e2]; sim_body
+  | some r =>
+    simp only
+    split
+    · split
+      · sim_body
+      · rename_i d
+        rcases (hu.logSql "selKey" "selKey").store E (.int (d + delta)) false with
+          ⟨e, e1, e2⟩ | ⟨s', t', c, e1, e2, h'⟩
+        · rw [e1, e2]; sim_body
+        · rw [e1, e2]; sim_body
+    · split
+      · split
+        · sim_body
+        · sim_body
+      · sim_body
+
+theorem get_sim {s t : Cache} (h : Sim s t) (E : Externals) (now : Int) (k : PyVal) (read et tg : Bool) :
+    SimP (s.get E now k read et tg) (t.get E now k read et tg) := by
+  unfold Cache.get
+  rw [← h.cfg, ← h.statistics]
+  rcases DC.put E s.cfg.disk k with ⟨dbk, raw⟩
+  simp only
+  split
+  · rw [← h.selLive]
+    split
+    · exact ⟨h.logSql _ _, rfl⟩
+    · rename_i r _
+      have hf := (h.logSql "selLive" "selLive").fetchRow E r read
+      rw [← hf.2]
+      split
+      · exact ⟨hf.1, rfl⟩
+      · exact ⟨hf.1, rfl⟩
+  · apply h.transact
+    intro u v hu
+    rw [← hu.selLive]
+    split
+    · sim_body
+    · rename_i r _
+      have hf := (hu.logSql "selLive" "selLive").fetchRow E r read
+      rw [← hf.2]
+      split
+      · sim_body
+      · sim_body
+
+theorem contains_sim {s t : Cache} (h : Sim s t) (E : Externals) (now : Int) (k : PyVal) :
+    SimP (s.contains E now k) (t.contains E now k) := by
+  unfold Cache.contains
+  rw [← h.cfg]
+  exact ⟨h.logSql _ _, by simp only [h.selLive]⟩
+
+theorem Sim.tx_sel {s t : Cache} (h : Sim s t) (sel : String) :
+    Sim (s.transact fun s => { s := s.logSql sel, out := .none }).1
+        (t.transact fun s => { s := s.logSql sel, out := .none }).1 := by
+  sim_auto
+
+theorem Sim.tx_del {s t : Cache} (h : Sim s t) (sel : String) (rowid : Nat) (cl : List (Option Nat)) :
+    Sim (s.transact fun s => { s := (s.logSql sel).delRow rowid, out := .none, cleanup := cl }).1
+        (t.transact fun s => { s := (s.logSql sel).delRow rowid, out := .none, cleanup := cl }).1 := by
+  sim_auto
+
+theorem pop_sim {s t : Cache} (h : Sim s t) (E : Externals) (now : Int) (k : PyVal) (et tg : Bool) :
+    SimP (s.pop E now k et tg) (t.pop E now k et tg) := by
+  unfold Cache.pop
+  rw [← h.cfg]
+  rcases DC.put E s.cfg.disk k with ⟨dbk, raw⟩
+  simp only
+  rw [← h.selLive]
+  cases hhit : s.selLive dbk raw now with
+  | none =>
+    simp only
+    exact ⟨h.tx_sel _, rfl⟩
+  | some r =>
+    simp only
+    have hf := (h.tx_del "selLive" r.rowid []).fetchRow E r false
+    rw [← hf.2]
+    split
+    · exact ⟨hf.1.removeCommitted _, rfl⟩
+    · exact ⟨hf.1.removeCommitted _, rfl⟩
+
+theorem delitem_sim {s t : Cache} (h : Sim s t) (E : Externals) (now : Int) (k : PyVal) :
+    SimP (s.delitem E now k) (t.delitem E now k) := by
+  unfold Cache.delitem
+  rw [← h.cfg]
+  rcases DC.put E s.cfg.disk k with ⟨dbk, raw⟩
+  simp only
+  apply h.transact
+  intro u v hu
+  rw [← hu.selLive]
+  split
+  · sim_body
+  · sim_body
+
+/-- the result conversion of `delete` -/
+def delOut : Out → Out
+  | .exc "KeyError" => .bool false
+  | o => o
+
+theorem delete_eq' (s : Cache) (E : Externals) (now : Int) (k : PyVal) :
+    s.delete E now k = ((s.delitem E now k).1, delOut (s.delitem E now k).2) := by
+  unfold Cache.delete
+  generalize s.delitem E now k = p
+  rcases p with ⟨s', o⟩
+  unfold delOut
+  split <;> split <;> simp_all
+
+theorem delete_sim {s t : Cache} (h : Sim s t) (E : Externals) (now : Int) (k : PyVal) :
+    SimP (s.delete E now k) (t.delete E now k) := by
+  have hd := delitem_sim h E now k
+  rw [delete_eq', delete_eq']
+  exact ⟨hd.1, by rw [hd.2]⟩
+
+theorem push_sim {s t : Cache} (h : Sim s t) (E : Externals) (now : Int) (v : PyVal) (pfx : Option Str)
+    (back : Bool) (ttl : Option Int) (read : Bool) (tag : SqlVal) :
+    SimP (s.push E now v pfx back ttl read tag) (t.push E now v pfx back ttl read tag) := by
+  unfold Cache.push
+  rcases h.store E v read with ⟨e, e1, e2⟩ | ⟨s', t', c, e1, e2, h'⟩
+  · rw [e1, e2]; exact ⟨h, rfl⟩
+  · rw [e1, e2]
+    simp only
+    apply h'.transact
+    intro u v hu
+    have hl := hu.logSql "selQueueEnd" "selQueueEnd"
+    rw [← hu.queueRows, ← hl.cfg]
+    split
+    · sim_body
+    · rw [← hl.selKey]
+      split
+      · sim_body
+      · split
+        · sim_body
+        · sim_body
+
+/-! ### loops -/
+
+theorem pullLoop_sim (E : Externals) (now : Int) (pfx : Option Str) (front et tg : Bool) :
+    ∀ (fuel : Nat) {s t : Cache}, Sim s t →
+      SimP (pullLoop E now pfx front et tg fuel s) (pullLoop E now pfx front et tg fuel t) := by
+  intro fuel
+  induction fuel with
+  | zero => intro s t h; exact ⟨h, rfl⟩
+  | succ n ih =>
+    intro s t h
+    simp only [pullLoop]
+    rw [← h.queueRows]
+    split
+    · exact ⟨h.tx_sel _, rfl⟩
+    · rename_i r _
+      split
+      · exact ih (h.tx_del _ _ _)
+      · have hf := (h.tx_del "selQueueHead" r.rowid []).fetchRow E r false
+        rw [← hf.2]
+        split
+        · exact ih (hf.1.removeCommitted _)
+        · exact ⟨hf.1.removeCommitted _, rfl⟩
+
+theorem peekLoop_sim (E : Externals) (now : Int) (pfx : Option Str) (front et tg : Bool) :
+    ∀ (fuel : Nat) {s t : Cache}, Sim s t →
+      SimP (peekLoop E now pfx front et tg fuel s) (peekLoop E now pfx front et tg fuel t) := by
+  intro fuel
+  induction fuel with
+  | zero => intro s t h; exact ⟨h, rfl⟩
+  | succ n ih =>
+    intro s t h
+    simp only [peekLoop]
+    rw [← h.queueRows]
+    split
+    · exact ⟨h.tx_sel _, rfl⟩
+    · rename_i r _
+      split
+      · exact ih (h.tx_del _ _ _)
+      · have hf := (h.tx_sel "selQueueHead").fetchRow E r false
+        rw [← hf.2]
+        split
+        · exact ih hf.1
+        · exact ⟨hf.1, rfl⟩
+
+theorem peekitemLoop_sim (E : Externals) (now : Int) (last et tg : Bool) :
+    ∀ (fuel : Nat) {s t : Cache}, Sim s t →
+      SimP (peekitemLoop E now last et tg fuel s) (peekitemLoop E now last et tg fuel t) := by
+  intro fuel
+  induction fuel with
+  | zero => intro s t h; exact ⟨h, rfl⟩
+  | succ n ih =>
+    intro s t h
+    simp only [peekitemLoop]
+    rw [← h.rows]
+    split
+    · apply h.transact
+      intro u v hu
+      sim_body
+    · rename_i r _
+      split
+      · exact ih (h.tx_del _ _ _)
+      · have hf := (h.tx_sel "selEdge").fetchRow E r false
+        rw [← hf.2]
+        split
+        · exact ih hf.1
+        · refine ⟨hf.1, ?_⟩
+          simp only [fetchRow_cfg, ← (h.tx_sel "selEdge").cfg]
+
+theorem Sim.deletePage {s t : Cache} (h : Sim s t) (page : List Row) (sel : String) :
+    Sim (s.deletePage page sel) (t.deletePage page sel) := by
+  rw [deletePage_eq, deletePage_eq]
+  apply h.transact₁
+  intro u v hu
+  unfold pageBody
+  simp only
+  split
+  · sim_body
+  · sim_body
+
+theorem clearLoop_sim : ∀ (fuel : Nat) {s t : Cache} (cur n : Nat), Sim s t →
+    SimP (clearLoop fuel s cur n) (clearLoop fuel t cur n) := by
+  intro fuel
+  induction fuel with
+  | zero => intro s t cur n h; exact ⟨h, rfl⟩
+  | succ k ih =>
+    intro s t cur n h
+    simp only [clearLoop]
+    rw [← h.rows, ← h.cfg]
+    split
+    · exact ⟨h.deletePage _ _, rfl⟩
+    · exact ih _ _ (h.deletePage _ _)
+
+theorem evictLoop_sim (tag : SqlVal) : ∀ (fuel : Nat) {s t : Cache} (cur n : Nat), Sim s t →
+    SimP (evictLoop tag fuel s cur n) (evictLoop tag fuel t cur n) := by
+  intro fuel
+  induction fuel with
+  | zero => intro s t cur n h; exact ⟨h, rfl⟩
+  | succ k ih =>
+    intro s t cur n h
+    simp only [evictLoop]
+    rw [← h.rows, ← h.cfg]
+    split
+    · exact ⟨h.deletePage _ _, rfl⟩
+    · exact ih _ _ (h.deletePage _ _)
+
+theorem expireLoop_sim (now : Int) : ∀ (fuel : Nat) {s t : Cache} (lo : Option Int) (n : Nat), Sim s t →
+    SimP (expireLoop now fuel s lo n) (expireLoop now fuel t lo n) := by
+  intro fuel
+  induction fuel with
+  | zero => intro s t lo n h; exact ⟨h, rfl⟩
+  | succ k ih =>
+    intro s t lo n h
+    simp only [expireLoop]
+    rw [← h.rows, ← h.cfg]
+    split
+    · exact ⟨h.deletePage _ _, rfl⟩
+    · exact ih _ _ (h.deletePage _ _)
+
+theorem cullLoop_sim : ∀ (fuel : Nat) {s t : Cache} (n : Nat), Sim s t →
+    SimP (cullLoop fuel s n) (cullLoop fuel t n) := by
+  intro fuel
+  induction fuel with
+  | zero => intro s t n h; exact ⟨h, rfl⟩
+  | succ k ih =>
+    intro s t n h
+    rw [cullLoop_succ, cullLoop_succ]
+    have hv := h.volume
+    rw [← hv.2, ← hv.1.cfg, ← hv.1.selPolicy]
+    split
+    · exact ⟨hv.1, rfl⟩
+    · split
+      · unfold cullEmpty
+        exact ⟨hv.1.tx_sel _, rfl⟩
+      · apply ih
+        unfold cullStep
+        sim_auto
+
+theorem iterLoop_sim (asc : Bool) (bound : Nat) :
+    ∀ (fuel : Nat) {s t : Cache} (cur : Nat) (acc : List Row), Sim s t →
+    SimP (iterLoop asc bound fuel s cur acc) (iterLoop asc bound fuel t cur acc) := by
+  intro fuel
+  induction fuel with
+  | zero => intro s t cur acc h; exact ⟨h, rfl⟩
+  | succ k ih =>
+    intro s t cur acc h
+    simp only [iterLoop]
+    rw [← h.rows, ← h.cfg]
+    split
+    · exact ⟨h.logSql _ _, rfl⟩
+    · exact ih _ _ (h.logSql _ _)
+
+theorem iterkeysLoop_sim (rev : Bool) :
+    ∀ (fuel : Nat) {s t : Cache} (cur : Row) (acc : List Row), Sim s t →
+    SimP (iterkeysLoop rev fuel s cur acc) (iterkeysLoop rev fuel t cur acc) := by
+  intro fuel
+  induction fuel with
+  | zero => intro s t cur acc h; exact ⟨h, rfl⟩
+  | succ k ih =>
+    intro s t cur acc h
+    simp only [iterkeysLoop]
+    rw [← h.rows, ← h.cfg]
+    split
+    · exact ⟨h.logSql _ _, rfl⟩
+    · exact ih _ _ (h.logSql _ _)
+
+/-! ### methods built on the loops, counters -/
+
+theorem cull_sim {s t : Cache} (h : Sim s t) (now : Int) : SimP (s.cull now) (t.cull now) := by
+  rw [cull_eq, cull_eq, ← h.rows]
+  have he := expireLoop_sim now (s.rows.length + 1) none 0 h
+  rw [← he.1.cfg, ← he.1.rows, ← he.2]
+  split
+  · exact ⟨he.1, rfl⟩
+  · have hc := cullLoop_sim ((expireLoop now (s.rows.length + 1) s none 0).1.rows.length + 1)
+      (expireLoop now (s.rows.length + 1) s none 0).2 he.1
+    exact ⟨hc.1, by rw [hc.2]⟩
+
+theorem iter_sim {s t : Cache} (h : Sim s t) (E : Externals) (asc : Bool) :
+    SimP (s.iter E asc) (t.iter E asc) := by
+  unfold Cache.iter
+  have h0 := h.logSql "maxRowid" "maxRowid"
+  dsimp only
+  rw [← h0.rows]
+  split
+  · exact ⟨h0, rfl⟩
+  · have hl := iterLoop_sim asc (maxRowid (s.logSql "maxRowid").rows + 1) ((s.logSql "maxRowid").rows.length + 1)
+      (if asc then 0 else maxRowid (s.logSql "maxRowid").rows + 1) [] h0
+    exact ⟨hl.1, by rw [← hl.2, ← hl.1.cfg]⟩
+
+theorem iterkeys_sim {s t : Cache} (h : Sim s t) (E : Externals) (rev : Bool) :
+    SimP (s.iterkeys E rev) (t.iterkeys E rev) := by
+  unfold Cache.iterkeys
+  have h0 := h.logSql "firstKey" "firstKey"
+  dsimp only
+  rw [← h.rows]
+  split
+  · exact ⟨h0, rfl⟩
+  · rename_i r0 _
+    have hl := iterkeysLoop_sim rev ((s.logSql "firstKey").rows.length + 1) r0 [r0] h0
+    rw [← h0.rows]
+    exact ⟨hl.1, by rw [← hl.2, ← hl.1.cfg]⟩
+
+theorem stats_sim {s t : Cache} (h : Sim s t) (enable reset : Bool) :
+    SimP (s.stats enable reset) (t.stats enable reset) := by
+  unfold Cache.stats
+  refine ⟨?_, by simp only [h.hits, h.misses]⟩
+  simp only
+  split
+  · sim_fields h [Cache.logSql, Cache.log]
+  · sim_fields h [Cache.logSql, Cache.log]
+
+/-- `handle_independent` in terms of `Sim` -/
+theorem step_sim {s t : Cache} (h : Sim s t) (op : Op) (hf : op.flat = true) :
+    SimP (s.step op) (t.step op) := by
+  cases op with
+  | set E now k v ttl read tag => exact set_sim h E now k v ttl read tag
+  | add E now k v ttl read tag => exact add_sim h E now k v ttl read tag
+  | touch E now k ttl => exact touch_sim h E now k ttl
+  | incr E now k delta dflt => exact incr_sim h E now k delta dflt
+  | get E now k read et tg => exact get_sim h E now k read et tg
+  | contains E now k => exact contains_sim h E now k
+  | pop E now k et tg => exact pop_sim h E now k et tg
+  | delitem E now k => exact delitem_sim h E now k
+  | delete E now k => exact delete_sim h E now k
+  | push E now v pfx back ttl read tag => exact push_sim h E now v pfx back ttl read tag
+  | pull E now pfx front et tg =>
+    show SimP (pullLoop E now pfx front et tg (s.rows.length + 1) s)
+      (pullLoop E now pfx front et tg (t.rows.length + 1) t)
+    rw [← h.rows]
+    exact pullLoop_sim E now pfx front et tg _ h
+  | peek E now pfx front et tg =>
+    show SimP (peekLoop E now pfx front et tg (s.rows.length + 1) s)
+      (peekLoop E now pfx front et tg (t.rows.length + 1) t)
+    rw [← h.rows]
+    exact peekLoop_sim E now pfx front et tg _ h
+  | peekitem E now last et tg =>
+    show SimP (peekitemLoop E now last et tg (s.rows.length + 1) s)
+      (peekitemLoop E now last et tg (t.rows.length + 1) t)
+    rw [← h.rows]
+    exact peekitemLoop_sim E now last et tg _ h
+  | clear =>
+    have hl := clearLoop_sim (s.rows.length + 1) 0 0 h
+    show SimP ((clearLoop (s.rows.length + 1) s 0 0).1, Out.int (clearLoop (s.rows.length + 1) s 0 0).2)
+      ((clearLoop (t.rows.length + 1) t 0 0).1, Out.int (clearLoop (t.rows.length + 1) t 0 0).2)
+    rw [← h.rows]
+    exact ⟨hl.1, by rw [hl.2]⟩
+  | evict tag =>
+    have hl := evictLoop_sim tag (s.rows.length + 1) 0 0 h
+    show SimP ((evictLoop tag (s.rows.length + 1) s 0 0).1, Out.int (evictLoop tag (s.rows.length + 1) s 0 0).2)
+      ((evictLoop tag (t.rows.length + 1) t 0 0).1, Out.int (evictLoop tag (t.rows.length + 1) t 0 0).2)
+    rw [← h.rows]
+    exact ⟨hl.1, by rw [hl.2]⟩
+  | expire now =>
+    have hl := expireLoop_sim now (s.rows.length + 1) none 0 h
+    show SimP ((expireLoop now (s.rows.length + 1) s none 0).1,
+        Out.int (expireLoop now (s.rows.length + 1) s none 0).2)
+      ((expireLoop now (t.rows.length + 1) t none 0).1, Out.int (expireLoop now (t.rows.length + 1) t none 0).2)
+    rw [← h.rows]
+    exact ⟨hl.1, by rw [hl.2]⟩
+  | cull now => exact cull_sim h now
+  | iter E asc => exact iter_sim h E asc
+  | iterkeys E rev => exact iterkeys_sim h E rev
+  | len => exact ⟨h.logSql _ _, by show Out.int s.count = Out.int t.count; rw [h.count]⟩
+  | stats enable reset => exact stats_sim h enable reset
+  | tbegin => cases hf
+  | tend => cases hf
+  | traise n => cases hf
+  | observe env =>
+    refine ⟨?_, rfl⟩
+    show Sim { s with env := env, envMiss := false } { t with env := env, envMiss := false }
+    sim_fields0 h
+
 end DC.Cache
